@@ -47,6 +47,16 @@ package meta
 //@   ensures result == si_contain(si.Min, si.Max, shardKey)
 //@   assigns nothing
 
+// ALTER ... SHARDKEY makes the new key effective from the NEXT shard group: it compares with the largest shard group id
+// of the policy. Groups are sorted by time, not by id (a back-filled group is newer by id and earlier by time), so the
+// maximum is taken over all groups.
+//@ func (*RetentionPolicyInfo).maxShardGroupID
+//@   requires rpi != nil
+//@   ensures [upper_bound_of_every_group_id] forall k int :: 0 <= k && k < len(rpi.ShardGroups) ==> rpi.ShardGroups[k].ID <= result
+//@   assigns nothing
+//@   loop 1
+//@     invariant forall k int :: 0 <= k && k <= rangeindex ==> rpi.ShardGroups[k].ID <= maxId
+
 // Range pruning on the read side works on a PREFIX of the shard key (measurement + the tag equalities of the query).
 // It may drop a shard only if no key starting with the prefix can live there; in particular the key that IS the prefix
 // lives in the shard whose [Min, Max) contains it, lower bound included - exactly the shard the writer chose.
@@ -126,6 +136,13 @@ package meta
 //@ func normalisedShardDuration
 //@   ensures result > 0 || (sgd < 0 && result == sgd)
 //@   ensures sgd >= MinRetentionPolicyDuration ==> result == sgd
+//@   assigns nothing
+
+// An index group spans a whole number of shard groups (its duration is rounded UP to a multiple of the shard group
+// duration): a shard group never straddles two index groups, so the index of a shard cannot expire before the shard.
+//@ func normalisedIndexDuration
+//@   requires sgd > 0 && igd >= 0 && igd < 4611686018427387904 && sgd < 4611686018427387904
+//@   ensures [whole_number_of_shard_groups] result >= igd && result >= sgd && result % sgd == 0 && (result == sgd || result - igd < sgd)
 //@   assigns nothing
 
 // Accepted specs: a limited duration is at least the minimum and at least one shard group long.
@@ -437,10 +454,17 @@ package meta
 //@ prop C13
 
 // Every map entry removed by DROP DATABASE is keyed by the dropped name.
+//@ prop C13 C19
 //@ func (*Data).DropDatabase
 //@   requires data != nil
 //@   call delete
 //@     requires arg1 == name
+// A privilege is granted on a database, not on a name: the grants of every user on the dropped database go with it (a
+// database created later under the same name starts without grants).
+//@   ensures [database_entry_gone] !(name in data.Databases)
+//@   loop 1
+//@     invariant [grants_die_with_the_database] forall k int :: 0 <= k && k <= rangeindex && k < len(data.Users) ==> !(name in data.Users[k].Privileges)
+//@ prop C13
 
 //@ func (*Data).CheckStreamExistInDatabase
 //@   assigns nothing
@@ -592,8 +616,20 @@ package meta
 //@     requires [start_restored] val == st0
 //@   store ShardGroupInfo.EndTime
 //@     requires [end_restored] val == en0
+// ... and the same for index groups (a shard group looks its index group up by time: a bound that moves to year 1
+// makes a later CreateShardGroup pick or create a different index group than a node that never restored).
 //@ func (*IndexGroupInfo).unmarshal
 //@   trusted_assigns igi
+//@   ghost st0 int64 = 0
+//@   ghost en0 int64 = 0
+//@   call .GetStartTime
+//@     set st0 = ret0
+//@   call .GetEndTime
+//@     set en0 = ret0
+//@   store IndexGroupInfo.StartTime
+//@     requires [start_restored] val == st0
+//@   store IndexGroupInfo.EndTime
+//@     requires [end_restored] val == en0
 //@ func (*SubscriptionInfo).unmarshal
 //@   trusted_assigns si
 //@ func (*DownSamplePolicyInfo).Unmarshal
